@@ -69,7 +69,9 @@
 #include <fcntl.h>
 
 #define MAXF 8
-typedef struct { char name[16]; int32 type; int order; int tsz; int esize; int isize; } fld_t;
+#define NAMEBUF 132     /* FIELDNAMELENMAX + 1 and some */
+#define LISTBUF 4096    /* a field list of up to 2*MAXF names */
+typedef struct { char name[NAMEBUF]; int32 type; int order; int tsz; int esize; int isize; } fld_t;
 static fld_t F[MAXF];
 static int NF, IVSIZE, ESIZE_ALL, FOFF[MAXF]; /* FOFF: offset in a shadow (memory) record */
 static int VIL;                                /* vdata interlace */
@@ -136,9 +138,9 @@ static void schema_oracle(const char *when)
     { char gn[128] = "?", gc[128] = "?";
       if (VSgetname(vs, gn) == FAIL || strcmp(gn, VNAME)) hk_fail("vs-name", "%s VSgetname '%s' want '%s'", when, gn, VNAME);
       if (VSgetclass(vs, gc) == FAIL || strcmp(gc, VCLASS)) hk_fail("vs-name", "%s VSgetclass '%s' want '%s'", when, gc, VCLASS); }
-    int32 nelt = -1, il = -1, esz = -1; char flds[1024] = "", nm[128] = "";
+    int32 nelt = -1, il = -1, esz = -1; char flds[LISTBUF] = "", nm[128] = "";
     if (VSinquire(vs, &nelt, &il, flds, &esz, nm) == FAIL) { hk_fail("vs-schema", "%s VSinquire failed", when); return; }
-    char want[1024] = ""; for (int i = 0; i < NF; i++) { if (i) strcat(want, ","); strcat(want, F[i].name); }
+    char want[LISTBUF] = ""; for (int i = 0; i < NF; i++) { if (i) strcat(want, ","); strcat(want, F[i].name); }
     if (nelt != NV) hk_fail("vs-schema", "%s VSinquire nelt=%d shadow %ld", when, (int)nelt, NV);
     if (VSelts(vs) != NV) hk_fail("vs-schema", "%s VSelts=%d shadow %ld", when, (int)VSelts(vs), NV);
     if (il != VIL || VSgetinterlace(vs) != VIL) hk_fail("vs-schema", "%s interlace %d want %d", when, (int)il, VIL);
@@ -152,7 +154,7 @@ static void schema_oracle(const char *when)
         if (VFfieldorder(vs, i) != F[i].order) hk_fail("vs-schema", "%s order[%d]=%d want %d", when, i, (int)VFfieldorder(vs, i), F[i].order);
         if (VFfieldisize(vs, i) != F[i].isize) hk_fail("vs-schema", "%s isize[%d]=%d want %d", when, i, (int)VFfieldisize(vs, i), F[i].isize);
         if (VFfieldesize(vs, i) != F[i].esize) hk_fail("vs-schema", "%s esize[%d]=%d want %d", when, i, (int)VFfieldesize(vs, i), F[i].esize);
-        char one[32]; strcpy(one, F[i].name);
+        char one[NAMEBUF]; strcpy(one, F[i].name);
         if (VSsizeof(vs, one) != F[i].esize) hk_fail("vs-schema", "%s VSsizeof(%s)=%d want %d", when, one, (int)VSsizeof(vs, one), F[i].esize);
         if (VSfexist(vs, one) == FAIL) hk_fail("vs-schema", "%s VSfexist(%s) failed", when, one);
     }
@@ -237,7 +239,7 @@ static void do_setfields_read(void)
         if (NF > 1 && hk_chance(8) && ns < 2 * MAXF - 1) RSEL[ns++] = RSEL[0]; /* a field listed twice (single-field vdatas: case E ignores the list, see REPORT) */
     }
     RNS = ns;
-    char nm[512], nm2[512]; names_of(RSEL, RNS, nm); names_nospace(nm, nm2);
+    char nm[LISTBUF], nm2[LISTBUF]; names_of(RSEL, RNS, nm); names_nospace(nm, nm2);
     int rc = VSsetfields(vs, nm);
     printf("T vs setfields %s => %s\n", nm2, rc == SUCCEED ? "ok" : "fail");
     if (rc != SUCCEED) { hk_fail("vs-rc", "VSsetfields(%s) for reading failed NV=%ld", nm, NV); have_rlist = 0; }
@@ -285,14 +287,14 @@ static void do_read(long n, int big, int expect_fail)
         /* fields_in_buf = the read list (distinct names only), fields = a subset or NULL */
         int distinct = 1; for (int a = 0; a < RNS; a++) for (int b = a + 1; b < RNS; b++) if (RSEL[a] == RSEL[b]) distinct = 0;
         if (distinct) {
-            char fib[512], fibT[512]; names_of(RSEL, RNS, fib); names_nospace(fib, fibT);
+            char fib[LISTBUF], fibT[LISTBUF]; names_of(RSEL, RNS, fib); names_nospace(fib, fibT);
             int use_null_fib = (RNS == NF) && hk_chance(40);
             if (use_null_fib) { int id = 1; for (int a = 0; a < NF; a++) if (RSEL[a] != a) id = 0; if (!id) use_null_fib = 0; }
             int sub[MAXF], nsub = 0; int use_null_f = hk_chance(30);
             if (use_null_f) { nsub = RNS; for (int a = 0; a < RNS; a++) sub[a] = a; }
             else { for (int a = 0; a < RNS; a++) if (hk_chance(60)) sub[nsub++] = a; if (!nsub) sub[nsub++] = (int)hk_range(0, RNS - 1);
                    if (hk_chance(40)) for (int a = nsub - 1; a > 0; a--) { int b = (int)hk_range(0, a), t = sub[a]; sub[a] = sub[b]; sub[b] = t; } }
-            char fl[512] = "", flT[512]; for (int a = 0; a < nsub; a++) { if (a) strcat(fl, ","); strcat(fl, F[RSEL[sub[a]]].name); } names_nospace(fl, flT);
+            char fl[LISTBUF] = "", flT[LISTBUF]; for (int a = 0; a < nsub; a++) { if (a) strcat(fl, ","); strcat(fl, F[RSEL[sub[a]]].name); } names_nospace(fl, flT);
             uint8_t *fb[MAXF]; void *fbp[MAXF];
             for (int a = 0; a < nsub; a++) { fb[a] = calloc((size_t)(n * F[RSEL[sub[a]]].esize) + 1, 1); fbp[a] = fb[a]; }
             int rc = VSfpack(vs, _HDF_VSUNPACK, use_null_fib ? NULL : fib, buf, (int)bufsz, (int)n, use_null_f ? NULL : fl, fbp);
@@ -383,9 +385,46 @@ static void vdata_case(int k)
     NF = hk_chance(15) ? 1 : (int)hk_range(1, MAXF);
     int ndef = NF + (hk_chance(20) ? (int)hk_range(1, 2) : 0); /* some defined but unused fields */
     fld_t D[MAXF + 2];
+    /* predefined fields (rstab[] of vsfld.c: PX PY PZ IX IY IZ NX NY NZ, 4 bytes, order 1) need no VSfdefine; a user definition
+     * of the same name takes precedence (VSsetfields looks in the user's symbol table first) */
+    static const char *RS[] = {"PX", "PY", "PZ", "IX", "IY", "IZ", "NX", "NY", "NZ"};
+    int rs_first = (int)hk_range(0, 8), rs_used = 0;
+    /* RELATED names (every lookup in the library is an exact, case-sensitive comparison of whole names): prefixes and extensions of one
+     * another in both orders, names equal up to case, names of FIELDNAMELENMAX characters that differ in the last one only */
+    char REL[MAXF + 2][NAMEBUF]; int related = hk_chance(40);
+    if (related) {
+        char base[8]; int bl = (int)hk_range(2, 5);
+        for (int q = 0; q < bl; q++) base[q] = (char)hk_range('a', 'z'); base[bl] = 0;
+        char cand[12][NAMEBUF]; int nc = 0;
+        snprintf(cand[nc++], NAMEBUF, "%s", base);
+        snprintf(cand[nc++], NAMEBUF, "%s_QC", base);
+        snprintf(cand[nc++], NAMEBUF, "%sx", base);
+        snprintf(cand[nc++], NAMEBUF, "%s_QC2", base);
+        snprintf(cand[nc], NAMEBUF, "%s", base); cand[nc][bl - 1] = 0; nc++;                              /* proper prefix of the base */
+        snprintf(cand[nc], NAMEBUF, "%s", base); cand[nc][0] = (char)(cand[nc][0] - 'a' + 'A'); nc++;      /* differs in case only */
+        snprintf(cand[nc], NAMEBUF, "%s", base); for (int q = 0; q < bl; q++) cand[nc][q] = (char)(cand[nc][q] - 'a' + 'A'); nc++;
+        { int L = FIELDNAMELENMAX; for (int v = 0; v < 2; v++) { memset(cand[nc], 'L', (size_t)L); memcpy(cand[nc], base, (size_t)bl); cand[nc][L - 1] = (char)('a' + v); cand[nc][L] = 0; nc++; } }
+        { int L = FIELDNAMELENMAX - 1; memset(cand[nc], 'L', (size_t)L); memcpy(cand[nc], base, (size_t)bl); cand[nc][L] = 0; nc++; }  /* prefix of both long names */
+        for (int q = nc - 1; q > 0; q--) { int j = (int)hk_range(0, q); if (j == q) continue; char t_[NAMEBUF]; strcpy(t_, cand[q]); strcpy(cand[q], cand[j]); strcpy(cand[j], t_); }
+        for (int i = 0; i < ndef; i++) strcpy(REL[i], cand[i]);      /* ndef <= MAXF + 2 = 10 = nc: all distinct */
+        hk_stat("related_names", 1);
+    }
     for (int i = 0; i < ndef; i++) {
         int t = (int)hk_range(0, 9);
-        snprintf(D[i].name, sizeof D[i].name, "%c%d", "abcdxyzq"[hk_range(0, 7)], i);
+        if (related) snprintf(D[i].name, sizeof D[i].name, "%s", REL[i]);
+        else if (hk_chance(12) && rs_used < 9) {
+            int q = (rs_first + rs_used++) % 9;
+            snprintf(D[i].name, sizeof D[i].name, "%s", RS[q]);
+            hk_stat("predefined_field", 1);
+            if (!hk_chance(30)) {       /* not re-defined by the user: the library's definition */
+                D[i].type = RS[q][0] == 'I' ? DFNT_INT32 : DFNT_FLOAT32; D[i].tsz = 4; D[i].order = 1;
+                D[i].esize = D[i].isize = 4;
+                continue;
+            }
+            hk_stat("predefined_field_redefined", 1);
+        }
+        else
+            snprintf(D[i].name, sizeof D[i].name, "%c%d", "abcdxyzq"[hk_range(0, 7)], i);
         D[i].type = TYPES[t]; D[i].tsz = TSZ[t];
         int fl = (int)hk_range(0, 9);
         if (fl < 3) D[i].type |= DFNT_NATIVE; else if (fl < 5) D[i].type |= DFNT_LITEND;
@@ -427,7 +466,7 @@ static void vdata_case(int k)
         if (rc != SUCCEED) hk_fail("vs-rc", "VSsetinterlace"); else VIL = NO_INTERLACE;
     }
     if (hk_chance(5)) { int rc = VSsetinterlace(vs, 7); printf("T vs setinterlace 7 => %s\n", rc == SUCCEED ? "ok" : "fail"); if (rc == SUCCEED) hk_fail("vs-rc", "VSsetinterlace(7) accepted"); }
-    {   int all[MAXF]; char nm[512], nm2[512];
+    {   int all[MAXF]; char nm[LISTBUF], nm2[LISTBUF];
         for (int i = 0; i < NF; i++) all[i] = i;
         names_of(all, NF, nm); names_nospace(nm, nm2);
         if (hk_chance(5)) { /* unknown field name: must fail and leave the vdata without fields */
@@ -515,8 +554,8 @@ static void vdata_case(int k)
         else { /* ---------- VSsizeof of a subset, VSsetinterlace after data must fail */
             if (hk_chance(50) && NF > 1) {
                 int sel[2]; sel[0] = (int)hk_range(0, NF - 1); sel[1] = (int)hk_range(0, NF - 1);
-                char nm[64]; snprintf(nm, sizeof nm, "%s,%s", F[sel[0]].name, F[sel[1]].name);
-                char nm3[64]; strcpy(nm3, nm);
+                char nm[2 * NAMEBUF]; snprintf(nm, sizeof nm, "%s,%s", F[sel[0]].name, F[sel[1]].name);
+                char nm3[2 * NAMEBUF]; strcpy(nm3, nm);
                 int32 s = VSsizeof(vs, nm3);
                 printf("T vs sizeof %s => %d\n", nm, (int)s);
                 if (s != F[sel[0]].esize + F[sel[1]].esize) hk_fail("vs-schema", "VSsizeof(%s)=%d", nm, (int)s);
@@ -535,7 +574,7 @@ static void vdata_case(int k)
         if (attached && !dead) schema_oracle("after-final-reopen");
         if (attached && !dead) {
             for (int i = 0; i < NF; i++) RSEL[i] = i; RNS = NF;
-            char nm[512], nm2[512]; names_of(RSEL, RNS, nm); names_nospace(nm, nm2);
+            char nm[LISTBUF], nm2[LISTBUF]; names_of(RSEL, RNS, nm); names_nospace(nm, nm2);
             int rc = VSsetfields(vs, nm);
             printf("T vs setfields %s => %s\n", nm2, rc == SUCCEED ? "ok" : "fail");
             have_rlist = rc == SUCCEED;
